@@ -7,4 +7,4 @@ CONSTANTS Dates = {1, 2, 3}
           Zones <- ZonesUEW
           ZoneAware = TRUE
 INIT Init
-NEXT NextGen
+NEXT NextGenAll
